@@ -234,6 +234,21 @@ class Scen:
             while peer.answered < len(reqs):
                 m = reqs[peer.answered]
                 path = m.target.decode()
+                if path == "/main" and self.case.get("redirect"):
+                    # the first hop is a redirect whose body comes in a later segment than its head
+                    if not m.complete:
+                        break
+                    if not getattr(self, "redirect_head_sent", False):
+                        self.redirect_head_sent = True
+                        peer.send(b"HTTP/1.1 302 Found\r\nLocation: /main2\r\nContent-Length: 4\r\n\r\n")
+                        acted = True
+                        break
+                    peer.answered += 1
+                    peer.send(b"move")
+                    acted = True
+                    continue
+                if path == "/main2":
+                    path = "/main"          # the second hop is the one that stalls
                 if path == "/main" and self.case.get("slow_consumer"):
                     if not m.complete:
                         break
@@ -443,6 +458,10 @@ def cases(quick):
     for phase in ("before-status", "mid-length-body", "before-body"):
         out.append({"name": f"{phase}/total=7.5/traced", "phase": phase, "timeout": ("total", 7.5), "sibling": False, "faults": ["cancel"], "trace_suspend": True})
     out.append({"name": "healthy/traced", "phase": "before-status", "timeout": ("total", 3.0), "sibling": True, "faults": ["cancel"], "no_stall": True, "trace_suspend": True})
+    # a redirect first (its body arrives behind its head), the stall on the second hop: the total timeout spans both
+    for phase in ("before-status", "mid-length-body"):
+        for T in (3.0, 7.5):
+            out.append({"name": f"redirect-then-{phase}/total={T:g}", "phase": phase, "timeout": ("total", T), "sibling": False, "faults": ["cancel"], "redirect": True})
     # the peer is prompt, the application is slow: the total timeout still bounds the exchange, whatever read API is used
     for how in ("read3", "readline", "readchunk", "readuntil"):
         out.append({"name": f"slow-consumer/{how}/total=3", "phase": "before-status", "timeout": ("total", 3.0), "sibling": False, "faults": [], "no_stall": True,
